@@ -55,6 +55,10 @@ CLAIMED = {
    "TLA+ model of request / challenge / redirect handling (spec/HttpAuth.tla; Confined, NoDowngrade, ChainBounded checked by TLC, pinned-code transcription kept as a violating spec mutant); TLC-generated server scripts played to the real lfsapi.Client over four listeners; request logs validated by TLC against the acceptor HttpAuthTrace",
    "TLC explores every server behaviour of <=2 (thorough <=3) answers per identity over {https api, same host other port, other host, api host over http}, each answer 200 / 401 / redirect to any identity, x access mode {none, basic} x credential source {helper, URL userinfo}. Every finished behaviour's script is replayed against the real client; each request a listener receives is logged with the identity whose credentials its Authorization carries, and the acceptor rejects a log in which credentials reach another identity, an http request follows an https one, or a logical request takes more than 12 HTTP requests.",
    "Only batch API requests and 307 redirects are issued; storage/verify/lock requests use the same client path. netrc, askpass and multistage credential sources are not yet covered.", "DESIGN.md §5 C10"),
+ "C16": ("model_checking",
+   "TLA+ model of two users, their clones and the lock server (spec/Locking.tla; AtMostOneOwner, NoUnlockDirty, FreshAfterVerify checked by TLC); per-edge behaviours replayed with two real clones, the real git-lfs and the harness's lock server; lock table, cached own locks, write bits and command verdicts compared after every step",
+   "TLC explores every sequence of <=4 (thorough <=6) commands of two users over two lockable paths: lock, unlock by path and by id with and without --force, locks --verify, a hook run, an edit, and a final commit + push with lock verification on. Replayed runs are judged on: the server's table equals the specification's (in particular a lock on a file with uncommitted changes or held by the other user is not released without --force), command verdicts (conflict, refusal), a granted lock is in the cached list and a released own lock is not, after --verify the cached list equals the user's own locks, write bits after lock / unlock / hook run, and a push modifying a path locked by the other user is rejected while own locks do not block it.",
+   "Lock server answers are always well-formed (no 403/404/5xx/pagination faults yet); lfs.setlockablereadonly and locksverify are at true. `locks --verify` caching the other user's locks is a recorded finding that the pinned test-suite itself asserts.", "DESIGN.md §5 C16"),
 }
 
 checks = []
